@@ -17,6 +17,11 @@ open SE SE.Gen
     extractor's lock-region recognition applies everywhere (nothing was guessed) -/
 theorem locking_is_regular : Gen.irregularLocking = [] := by decide
 
+/-- the concurrently used packages recycle no memory through a `sync.Pool`: ownership of pooled objects changes hands
+    without any access the table could see (seeded change W20), so a pool puts the code outside the abstraction this
+    theorem family speaks about -/
+theorem no_object_pools : Gen.syncPools = [] := by decide
+
 /-- no location of the extracted table has an unprotected conflicting pair of accesses -/
 theorem no_racy_location : racyLocations Gen.accessTable = [] := by decide +kernel
 
